@@ -227,6 +227,12 @@ Theorem rebuild_commit_keeps_signer_and_signature r p sig : p_body p = BCommit s
   p_height (rebuild_commit r p) = p_height r /\ p_view (rebuild_commit r p) = p_view r.
 Proof. intros E Hl. unfold rebuild_commit, from. rewrite E. cbn [p_body p_index p_height p_view]. unfold fit64. rewrite fit_id by exact Hl. auto. Qed.
 
+(* a Commit of another view than the recovery payload's is NOT rebuilt as itself: the view kept in the compact entry is not
+   used by GetCommits, the rebuilt payload bears the recovery payload's view (commits of other validators from earlier views
+   travel relabelled; the node's own commit is of the node's view: Properties/C03.v) *)
+Theorem rebuild_commit_relabels_another_view r p : p_view p <> p_view r -> rebuild_commit r p <> p.
+Proof. intros Hv E. apply Hv. rewrite <- E at 1. reflexivity. Qed.
+
 (* a ChangeView is NOT rebuilt as itself: the timestamp is dropped; the view it asks for is the sender's view + 1 *)
 Theorem rebuild_cv_shape r p : p_body (rebuild_cv r p) = BChangeView ((p_view p + 1) mod 256) 0.
 Proof. reflexivity. Qed.
